@@ -113,6 +113,7 @@ def parseOp (j : Json) : Option Op :=
 
 def parseFault (j : Json) : Fault :=
   match jStr j "fault" with
+  | "sweepat" => .none   -- a sweep during the (young) in-flight operation: a no-op (`sweep_ignores_young_records`)
   | "fail" => .failNuts
   | "failctx" => .failNuts   -- the request context is cancelled as well: the clean-up does not look at it
   | "stop" => .stop (jNat j "k")
